@@ -24,7 +24,7 @@ CLOCKS = ["8", "8pm", "8 am", "12 am", "12pm", "20:00", "8:30", "08:15", "7.25 p
           "0800", "2015", "2018", "8 uhr", "8h", "8h30", "20 uhr 15", "8 o'clock", "five",
           "fünf", "acht uhr", "midnight", "mitternacht", "half 8", "halb acht",
           "quarter to 9", "viertel nach 3", "quarter past eight", "half past 7", "13", "0",
-          "23:59", "00:00", "24", "5", "9", "17", "3", "12"]
+          "23:59", "00:00", "24", "5", "9", "17", "3", "12", "1013", "0932", "1147", "1230"]
 DOMS = ["1.", "5.", "5th", "1st", "22nd", "3rd", "31.", "30.", "29.", "15", "12ten", "28",
         "31st", "30th"]
 DATES = ["12.12.2020", "31.04.2020", "29.02.2019", "29.2.", "31.6.", "30.02.", "5.10.",
@@ -36,7 +36,7 @@ DURS = ["1 day", "2 nights", "three days", "eine nacht", "zwei wochen", "half an
         "half a day", "1/2 h", "30 m", "3 months", "45 minutes", "for 2 days", "für 3 tage",
         "for one night", "for 90 minutes", "0 days", "a week", "for 4000000 days",
         "für 99999999999 tage", "for 999999 months", "for 120000 weeks", "for 87600000 hours",
-        "999999999 m"]
+        "999999999 m", "half week", "half a month", "1/2 night", "half day", "half hour"]
 LABELS = ["#fun", "#work", "#a-b", "#_x1", "#1st", "#", "#fun#work", "# tag", "#Überraschung"]
 INERT = ["beers", "and", "burgers", "lunch", "with", "bob", "call", "zahnarzt", "meeting",
          "xyzzy", "gargelbabel", "kaffee", "-", "--", "q3", "review"]
